@@ -208,7 +208,7 @@ class World:
 
         self.peers = {"A": peers.ScriptedPeer(self.P["ec1"], make_behaviour("A"), name="A"), "B": peers.ScriptedPeer(self.P["ec1"], make_behaviour("B"), name="B")}
         self.current = {"A": "ec1", "B": "ec1"}
-        self.hostmap = peers.HostMap({"alpha.test": "127.0.0.1", "beta.test": "127.0.0.1", "node_1.test": "127.0.0.1", "node-1.test": "127.0.0.1", "nodex1.test": "127.0.0.1"})
+        self.hostmap = peers.HostMap({"alpha.test": "127.0.0.1", "beta.test": "127.0.0.1", "node_1.test": "127.0.0.1", "node-1.test": "127.0.0.1", "nodex1.test": "127.0.0.1", "alpha.test.": "127.0.0.1"})
         self.hostmap.__enter__()
 
     def swap(self, peer, cert):
@@ -231,9 +231,14 @@ TARGETS = {
     "t5": ("node_1.test", "A"),
     "t6": ("node-1.test", "A"),
     "t7": ("nodeX1.test", "A"),
+    # the absolute spelling of a name (trailing dot): whatever key the store derives from it, it derives the same
+    # one when it writes the pin and when it looks it up
+    "t8": ("alpha.test.", "A"),
 }
 
 LOOKALIKE_HISTORIES = [
+    (("get", "t8"), ("swap", "A", "ec2"), ("get", "t8"), ("upload", "t8"), ("swap", "A", "ec1"), ("get", "t8"), ("get", "t1")),
+    (("get", "t1"), ("get", "t8"), ("swap", "A", "rsa"), ("get", "t8"), ("get", "t1"), ("revoke", "t8"), ("get", "t8"), ("get", "t1")),
     (("get", "t6"), ("swap", "A", "ec2"), ("get", "t5"), ("get", "t6"), ("swap", "A", "ec1"), ("get", "t5"), ("get", "t6"), ("upload", "t5")),
     (("get", "t5"), ("swap", "A", "rsa"), ("upload", "t6"), ("get", "t7"), ("get", "t5"), ("swap", "A", "ec1"), ("get", "t7"), ("get", "t5")),
     (("trust", "t7"), ("trust", "t6"), ("swap", "A", "ed"), ("get", "t5"), ("revoke", "t5"), ("get", "t6"), ("get", "t7"), ("swap", "A", "ec1"), ("get", "t6"), ("get", "t5")),
